@@ -88,7 +88,8 @@ func (pm *Manager) Acquire(name string, port int) (realPort int, err error) {
 	// check reserved ports first
 	if port == 0 {
 		if ctx, ok := pm.reservedPorts[name]; ok {
-			if pm.isPortAvailable(ctx.Port) {
+			// the remembered port must still be free in our own books, not only bindable right now
+			if _, free := pm.freePorts[ctx.Port]; free && pm.isPortAvailable(ctx.Port) {
 				realPort = ctx.Port
 				pm.usedPorts[realPort] = portCtx
 				pm.reservedPorts[name] = portCtx
